@@ -294,6 +294,11 @@ func c18Predicate(r *an.Run) {
 		expand(ret.Results[0], ret.Block(), 0)
 	}
 	for _, oc := range outcomes {
+		if oc.val == ssa.Value(ct) {
+			returnedDirectly = true // the marker test itself is (one way into) the answer
+		}
+	}
+	for _, oc := range outcomes {
 		ret := &struct {
 			blk *ssa.BasicBlock
 			pos token.Pos
